@@ -116,7 +116,13 @@ impl KeepAliveBox {
         let flag = Arc::new(FlagWaker(AtomicBool::new(false)));
         let waker = std::task::Waker::from(flag.clone());
         let mut out = Vec::new();
+        let mut polls = 0usize;
         loop {
+            polls += 1;
+            if polls > 20_000 {
+                // the service keeps waking itself without ever becoming idle
+                return Err((out, "livelock: poll_next never settles".into()));
+            }
             flag.0.store(false, Ordering::SeqCst);
             let proto = &mut self.protos[i];
             let polled = catch_unwind(AssertUnwindSafe(|| {
